@@ -23,6 +23,7 @@ func startWorker(c *Config, extra []string) (*workerProc, error) {
 	self, _ := os.Executable()
 	args := append([]string{"worker"}, extra...)
 	cmd := exec.Command(self, args...)
+	cmd.Env = append(os.Environ(), "GOMAXPROCS=2", "GOGC=400")
 	cmd.Stderr = os.Stderr
 	inp, _ := cmd.StdinPipe()
 	outp, _ := cmd.StdoutPipe()
@@ -172,6 +173,25 @@ func runMain(args []string) {
 		sum.Merged += res.Merged
 	}
 
+	var procMu sync.Mutex
+	procs := map[*workerProc]bool{}
+	if maxWall > 0 {
+		go func() {
+			time.Sleep(maxWall)
+			mu.Lock()
+			if !stopped {
+				sum.Inconclusive = append(sum.Inconclusive, fmt.Sprintf("wall budget %s exhausted with %d paths pending (workers killed)", maxWall, len(queue)+inflight))
+			}
+			stopped = true
+			mu.Unlock()
+			cond.Broadcast()
+			procMu.Lock()
+			for w := range procs {
+				w.cmd.Process.Kill()
+			}
+			procMu.Unlock()
+		}()
+	}
 	var wg sync.WaitGroup
 	for i := 0; i < jobs; i++ {
 		wg.Add(1)
@@ -198,6 +218,11 @@ func runMain(args []string) {
 				if w == nil {
 					var err error
 					w, err = startWorker(&c, extra)
+					if err == nil {
+						procMu.Lock()
+						procs[w] = true
+						procMu.Unlock()
+					}
 					if err != nil {
 						mu.Lock()
 						sum.Errors = append(sum.Errors, "worker start: "+err.Error())
@@ -215,7 +240,17 @@ func runMain(args []string) {
 				line, err := w.out.ReadString('\n')
 				var res PathResult
 				if err != nil {
-					res = PathResult{Harness: req.Harness, Prefix: req.Prefix, Status: "error", Detail: "worker died: " + err.Error()}
+					mu.Lock()
+					wasStopped := stopped
+					mu.Unlock()
+					st, det := "error", "worker died: "+err.Error()
+					if wasStopped {
+						st, det = "abort", "killed at wall budget"
+					}
+					res = PathResult{Harness: req.Harness, Prefix: req.Prefix, Status: st, Detail: det}
+					procMu.Lock()
+					delete(procs, w)
+					procMu.Unlock()
 					w.cmd.Process.Kill()
 					w.cmd.Wait()
 					w = nil
